@@ -211,6 +211,14 @@ impl Register {
 
     /// Check if a register op is valid for our current register
     pub fn check_register_op(&self, op: &RegisterOp) -> Result<()> {
+        // An op destined for another register cannot be applied to this one: readers replay the
+        // ops through `RegisterCrdt::apply_op`, which fails on the first foreign op.
+        if op.address() != self.address {
+            return Err(Error::RegisterAddrMismatch {
+                dst_addr: Box::new(op.address()),
+                reg_addr: Box::new(self.address),
+            });
+        }
         if self.permissions.can_anyone_write() {
             return Ok(()); // anyone can write, so no need to check the signature
         }
